@@ -31,6 +31,7 @@ class DetSched:
         self.threads = {}          # name -> LThread
         self.trace = []            # (thread, label) log of yield points reached
         self.line_funcs = {}       # code object -> short name (line mode)
+        self.line_files = set()    # source files all of whose functions are pre-empted line by line
         self.active = None
         DetSched.current = self
 
@@ -115,7 +116,7 @@ class DetSched:
             return                  # not inside a scheduled thread: no-op
         if self.active.atomic > 0:
             return
-        if self.line_funcs:
+        if self.line_funcs or self.line_files:
             # Line mode (CPython 3.12): the tracer stays installed for the scheduler's lifetime - toggling
             # sys.settrace de-instruments suspended frames - and the switch happens through sys.call_tracing
             # because a line yield switches greenlets from inside the trace callback (tstate->tracing > 0),
@@ -126,14 +127,14 @@ class DetSched:
 
     def _tracer(self, frame, event, arg):
         if event == "call":
-            if frame.f_code in self.line_funcs:
+            if frame.f_code in self.line_funcs or frame.f_code.co_filename in self.line_files:
                 return self._line_tracer
             return None
         return None
 
     def _line_tracer(self, frame, event, arg):
         if event == "line":
-            self.yield_point("line:%s:%d" % (self.line_funcs[frame.f_code], frame.f_lineno))
+            self.yield_point("line:%s:%d" % (self.line_funcs.get(frame.f_code) or frame.f_code.co_name, frame.f_lineno))
         return self._line_tracer
 
     def trace_lines(self, *funcs):
@@ -144,9 +145,17 @@ class DetSched:
             self._old_trace = sys.gettrace()
             sys.settrace(self._tracer)
 
+    def trace_files(self, *filenames):
+        """Line mode for every function defined in the given source files: the binding does not depend on how the code
+        under test is cut into functions (a helper extracted from a traced method is pre-empted line by line too)."""
+        self.line_files.update(filenames)
+        if sys.gettrace() is not self._tracer:
+            self._old_trace = sys.gettrace()
+            sys.settrace(self._tracer)
+
     def close(self):
         """Uninstall the line tracer (line mode only)."""
-        if self.line_funcs and sys.gettrace() == self._tracer:
+        if (self.line_funcs or self.line_files) and sys.gettrace() == self._tracer:
             sys.settrace(getattr(self, "_old_trace", None))
 
     def current_thread(self):
